@@ -278,6 +278,8 @@ pub struct Obs {
     pub script_done: bool,
     pub live_threads_before_drop: usize,
     pub live_threads_end: usize,
+    /// server-side socket handles still alive at the very end (server dropped, idle period over)
+    pub server_handles_end: usize,
     pub refused_after_drop: Option<bool>,
 }
 
